@@ -340,11 +340,11 @@ ALLOWED_MUTATORS = {
 }
 
 
-def rule_integrity(ctx, bi, rule, where, kinds, what):
+def rule_integrity(ctx, bi, rule, where, kinds, what, allow_blocks=()):
     ops = return_operands(bi, kinds)
     for b, op in ops:
         car = carrier_locals(bi, op)
-        muts = [(s, l) for s, l in in_place_mutators(bi, car) if s.key not in ALLOWED_MUTATORS]
+        muts = [(s, l) for s, l in in_place_mutators(bi, car) if s.key not in ALLOWED_MUTATORS and s.block not in allow_blocks]
         ctx.check(not muts, rule, where, "%s is not modified in place between its production and the return" % what,
                   site=bi.describe(b), path=["%s gets &mut _%d" % (s.where, l) for s, l in muts[:4]])
     return len(ops)
